@@ -613,12 +613,15 @@ func (v Value) opNeq(b Value) Value { return Bool(!v.Equals(b)) }
 
 func (v Value) Equals(b Value) bool {
 	switch {
+	case v.t == TypeNil && b.t != TypeNil:
+		return b.Equals(v)
 	case v.t == TypeBool:
-		return v.num == b.num
+		return b.t != TypeNil && v.num == b.num
 	case (v.t & TypeFloat64) > 0:
-		return v.num == b.num
+		return b.t != TypeNil && v.num == b.num
 	case v.t == TypeString:
-		return v.value.(stringT) == b.value.(stringT)
+		bs, ok := b.value.(stringT)
+		return ok && v.value.(stringT) == bs
 	case v.t.base() == TypeStruct, v.t == TypeFunc:
 		return (b.t == TypeNil && v.value == nil) || v.value == b.value
 	case v.t == TypeNil && b.t == TypeNil:
